@@ -39,7 +39,7 @@ theorem mayAdd_busy {s : St} (h : Inv s) {t : Nat} (hm : mayAdd s t = true) :
 
 /-- generic: thread `t` (not idle-outside) enters `adding q` for a not-yet-added taskpool -/
 theorem inv_enterAdd {s : St} {t q : Nat} {tp : Tp} (h : Inv s) (htp : s.tps[q]? = some tp) (hst : tp.st = .notAdded)
-    (htl : t < s.subs.length) (hnadd : ∀ q', s.subs[t]? ≠ some (.adding q')) (hnncb : ∀ q', s.subs[t]? ≠ some (.ncb q'))
+    (htl : t < s.subs.length) (hnadd : ∀ q', s.subs[t]? ≠ some (.adding q'))
     (hbusy : ¬ (s.mm = .leaving ∨ (s.mm = .atBarrier ∧ ∀ m ∈ s.wm, m = .exited)))
     (hw : ∀ w m, s.wm[w]? = some m → m ≠ .looping → t ≠ w + 1)
     (hm : (s.mm = .atBarrier ∨ s.mm = .leaving ∨ s.mm = .starting) → t ≠ 0) :
@@ -47,7 +47,8 @@ theorem inv_enterAdd {s : St} {t q : Nat} {tp : Tp} (h : Inv s) (htp : s.tps[q]?
   obtain ⟨hpl, _⟩ := List.getElem?_eq_some_iff.1 htp
   refine { len1 := ?len1, len2 := ?len2, cnt := ?cnt, tokM := ?tokM, notSt := ?notSt, wIdle := ?wIdle, mIdle := ?mIdle,
            taskSt := ?taskSt, taskCnt := ?taskCnt, cbFwd := ?cbFwd, cbBack := ?cbBack, addFwd := ?addFwd,
-           addBack := ?addBack, nFwd := ?nFwd, nBack := ?nBack, allOut := ?allOut, leaving := ?leaving }
+           addBack := ?addBack, nFwd := ?nFwd, nBack := ?nBack, len3 := ?len3, nIdle := ?nIdle, nNodup := ?nNodup,
+           allOut := ?allOut, leaving := ?leaving }
   all_goals try (keep h)
   case len1 => simpa [tick] using h.len1
   case cnt =>
@@ -102,15 +103,15 @@ theorem inv_enterAdd {s : St} {t q : Nat} {tp : Tp} (h : Inv s) (htp : s.tps[q]?
     · have hb := h.addBack q' x hx' hxs
       have hne : t ≠ x.by_ := by intro e; rw [← e] at hb; exact hnadd q' hb
       rw [List.getElem?_set_ne hne]; exact hb
-  case nFwd => exact nf_subs (nf_set h.nFwd htp (by rw [hst]; simp)) (by intro q' e; cases e)
-  case nBack => exact nb_subs (nb_set h.nBack (by simp)) hnncb
+  case nFwd => exact nf_set h.nFwd htp (by rw [hst]; simp)
+  case nBack => exact nb_set h.nBack (by simp)
   case leaving => intro hm'; exact (hbusy (Or.inl hm')).elim
 
 theorem inv_addCall {s : St} {t q : Nat} {tp : Tp} (h : Inv s) (htp : s.tps[q]? = some tp)
     (hg : mayAdd s t = true ∧ tp.st = .notAdded) :
     Inv (tick { s with subs := s.subs.set t (.adding q), tps := s.tps.set q { tp with st := .adding, by_ := t } }) := by
   obtain ⟨hsu, htl, hbusy, hw, hm⟩ := mayAdd_busy h hg.1
-  exact inv_enterAdd h htp hg.2 (by rw [h.len1]; exact htl) (fun q' e => by rw [hsu] at e; cases e) (fun q' e => by rw [hsu] at e; cases e) hbusy hw hm
+  exact inv_enterAdd h htp hg.2 (by rw [h.len1]; exact htl) (fun q' e => by rw [hsu] at e; cases e) hbusy hw hm
 
 /-- a thread inside add_taskpool is neither an idle master outside the loops nor a non-looping worker -/
 theorem sub_busy {s : St} (h : Inv s) {t : Nat} {u : Sub} (hsu : s.subs[t]? = some u) (hu : u ≠ .none) :
@@ -136,7 +137,7 @@ theorem inv_startupAdd {s : St} {t q q0 : Nat} {tp : Tp} (h : Inv s) (hsu : s.su
     (htp : s.tps[q]? = some tp) (hst : tp.st = .notAdded) :
     Inv (tick { s with subs := s.subs.set t (.adding q), tps := s.tps.set q { tp with st := .adding, by_ := t } }) := by
   obtain ⟨htl, hbusy, hw, hm⟩ := sub_busy h hsu (by simp)
-  exact inv_enterAdd h htp hst htl (fun q' e => by rw [hsu] at e; cases e) (fun q' e => by rw [hsu] at e; cases e) hbusy hw hm
+  exact inv_enterAdd h htp hst htl (fun q' e => by rw [hsu] at e; cases e) hbusy hw hm
 
 /-- generic: the taskpool being added by `t` moves inside the group {adding, earlyCb, earlyDec} -/
 theorem inv_addMove {s : St} {t q : Nat} {tp tp' : Tp} {a : Int} (h : Inv s) (hsu : s.subs[t]? = some (.adding q))
@@ -151,7 +152,8 @@ theorem inv_addMove {s : St} {t q : Nat} {tp tp' : Tp} {a : Int} (h : Inv s) (hs
   obtain ⟨hpl, _⟩ := List.getElem?_eq_some_iff.1 htp
   refine { len1 := ?len1, len2 := ?len2, cnt := ?cnt, tokM := ?tokM, notSt := ?notSt, wIdle := ?wIdle, mIdle := ?mIdle,
            taskSt := ?taskSt, taskCnt := ?taskCnt, cbFwd := ?cbFwd, cbBack := ?cbBack, addFwd := ?addFwd,
-           addBack := ?addBack, nFwd := ?nFwd, nBack := ?nBack, allOut := ?allOut, leaving := ?leaving }
+           addBack := ?addBack, nFwd := ?nFwd, nBack := ?nBack, len3 := ?len3, nIdle := ?nIdle, nNodup := ?nNodup,
+           allOut := ?allOut, leaving := ?leaving }
   all_goals try (keep h)
   case cnt =>
     have := h.cnt
@@ -212,7 +214,8 @@ theorem inv_addInc {s : St} {t q : Nat} {tp tp' : Tp} (h : Inv s) (hsu : s.subs[
   obtain ⟨hpl, _⟩ := List.getElem?_eq_some_iff.1 htp
   refine { len1 := ?len1, len2 := ?len2, cnt := ?cnt, tokM := ?tokM, notSt := ?notSt, wIdle := ?wIdle, mIdle := ?mIdle,
            taskSt := ?taskSt, taskCnt := ?taskCnt, cbFwd := ?cbFwd, cbBack := ?cbBack, addFwd := ?addFwd,
-           addBack := ?addBack, nFwd := ?nFwd, nBack := ?nBack, allOut := ?allOut, leaving := ?leaving }
+           addBack := ?addBack, nFwd := ?nFwd, nBack := ?nBack, len3 := ?len3, nIdle := ?nIdle, nNodup := ?nNodup,
+           allOut := ?allOut, leaving := ?leaving }
   all_goals try (keep h)
   case len1 => simpa [tick] using h.len1
   case cnt =>
@@ -268,10 +271,8 @@ theorem inv_addInc {s : St} {t q : Nat} {tp tp' : Tp} (h : Inv s) (hsu : s.subs[
     · have hb := h.addBack q' x hx' hxs
       have hne : t ≠ x.by_ := by intro e; rw [← e, hsu] at hb; cases hb; exact hqq rfl
       rw [List.getElem?_set_ne hne]; exact hb
-  case nFwd =>
-    exact nf_subs (nf_set h.nFwd htp (by intro e; rw [e] at hst; rcases hst with e' | e' | e' <;> cases e')) (by intro q' e; cases e)
-  case nBack =>
-    exact nb_subs (nb_set h.nBack (by intro e; rcases hg with e' | e' <;> rw [e'] at e <;> cases e)) (fun q' e => by rw [hsu] at e; cases e)
+  case nFwd => exact nf_set h.nFwd htp (by intro e; rw [e] at hst; rcases hst with e' | e' | e' <;> cases e')
+  case nBack => exact nb_set h.nBack (by intro e; rcases hg with e' | e' <;> rw [e'] at e <;> cases e)
   case allOut => intro hm' hw'; exact (hbusy (Or.inr ⟨hm', hw'⟩)).elim
   case leaving => intro hm'; exact (hbusy (Or.inl hm')).elim
 
@@ -279,7 +280,8 @@ theorem inv_addReturn {s : St} {t q0 : Nat} (h : Inv s) (hsu : s.subs[t]? = some
     Inv (tick { s with subs := s.subs.set t .none }) := by
   refine { len1 := ?len1, len2 := ?len2, cnt := ?cnt, tokM := ?tokM, notSt := ?notSt, wIdle := ?wIdle, mIdle := ?mIdle,
            taskSt := ?taskSt, taskCnt := ?taskCnt, cbFwd := ?cbFwd, cbBack := ?cbBack, addFwd := ?addFwd,
-           addBack := ?addBack, nFwd := ?nFwd, nBack := ?nBack, allOut := ?allOut, leaving := ?leaving }
+           addBack := ?addBack, nFwd := ?nFwd, nBack := ?nBack, len3 := ?len3, nIdle := ?nIdle, nNodup := ?nNodup,
+           allOut := ?allOut, leaving := ?leaving }
   all_goals try (keep h)
   case len1 => simpa [tick] using h.len1
   case wIdle =>
@@ -301,8 +303,6 @@ theorem inv_addReturn {s : St} {t q0 : Nat} (h : Inv s) (hsu : s.subs[t]? = some
     have hb := h.addBack q' x hx hxs
     have hne : t ≠ x.by_ := by intro e; rw [← e, hsu] at hb; cases hb
     simp only [tick]; rw [List.getElem?_set_ne hne]; exact hb
-  case nFwd => exact nf_subs h.nFwd (by intro q' e; cases e)
-  case nBack => exact nb_subs h.nBack (fun q' e => by rw [hsu] at e; cases e)
 
 /-- generic: an update of a taskpool descriptor that keeps its state and owner and moves `started` and
     `ended` together (arm: ready := true; DTD insert: total += 1; startup hook: pending actions declared;
@@ -327,7 +327,8 @@ theorem inv_tpUpdate {s : St} {p : Nat} {tp tp' : Tp} (h : Inv s) (htp : s.tps[p
     · exact ⟨y, by rw [List.getElem?_set_ne hne]; exact hy, rfl, rfl⟩
   refine { len1 := ?len1, len2 := ?len2, cnt := ?cnt, tokM := ?tokM, notSt := ?notSt, wIdle := ?wIdle, mIdle := ?mIdle,
            taskSt := ?taskSt, taskCnt := ?taskCnt, cbFwd := ?cbFwd, cbBack := ?cbBack, addFwd := ?addFwd,
-           addBack := ?addBack, nFwd := ?nFwd, nBack := ?nBack, allOut := ?allOut, leaving := ?leaving }
+           addBack := ?addBack, nFwd := ?nFwd, nBack := ?nBack, len3 := ?len3, nIdle := ?nIdle, nNodup := ?nNodup,
+           allOut := ?allOut, leaving := ?leaving }
   all_goals try (keep h)
   case cnt => simp only [tick]; rw [csum_set_same _ _ _ _ htp hst]; exact h.cnt
   case taskSt =>
@@ -363,8 +364,8 @@ theorem inv_tpUpdate {s : St} {p : Nat} {tp tp' : Tp} (h : Inv s) (htp : s.tps[p
     have := h.addBack q' y hy (h1 ▸ hxs)
     simp only [tick]; rw [h2]; exact this
   case nFwd =>
-    intro t' q' hq
-    obtain ⟨y, hy, hys, hyb⟩ := h.nFwd t' q' hq
+    intro t' l q' hl hq
+    obtain ⟨y, hy, hys, hyb⟩ := h.nFwd t' l q' hl hq
     obtain ⟨x, hx, hxs, hxb⟩ := key2 q' y hy
     exact ⟨x, hx, hxs.trans hys, hxb.trans hyb⟩
   case nBack =>
@@ -404,35 +405,30 @@ theorem cb_busy {s : St} (h : Inv s) {t m : Nat} (hbt : s.bases[t]? = some (.cb 
     rw [hbt] at hi; cases hi
 
 /-- the release of the last pending action of q by a callback: q's termination is detected and its
-    callback starts, nested (added → inCbN, the thread's sub-state becomes ncb q) -/
+    callback starts, nested (added → inCbN, q is pushed on the thread's nested stack) -/
 theorem inv_nestEnter {s : St} {t q m : Nat} {tp : Tp} (h : Inv s) (hbt : s.bases[t]? = some (.cb m))
-    (hsu : s.subs[t]? = some .none) (htp : s.tps[q]? = some tp)
-    (hg : tp.st = .added ∧ tp.ended = tp.total ∧ tp.started = tp.total) :
-    Inv (tick { s with subs := s.subs.set t (.ncb q),
+    (htp : s.tps[q]? = some tp) (hg : tp.st = .added ∧ tp.ended = tp.total ∧ tp.started = tp.total) :
+    Inv (tick { s with nests := s.nests.set t (q :: (s.nests[t]?).getD []),
                        tps := s.tps.set q { tp with pend := 0, st := .inCbN, cbs := tp.cbs + 1, cbAt := s.clock, by_ := t } }) := by
   obtain ⟨hst, hlt, hse⟩ := hg
-  obtain ⟨htl, hbusy, hw, hm⟩ := cb_busy h hbt
-  have htl' : t < s.subs.length := by rw [h.len1]; exact htl
+  obtain ⟨htl, hbusy, _, _⟩ := cb_busy h hbt
+  have htl' : t < s.nests.length := by rw [h.len3]; exact htl
   obtain ⟨hpl, _⟩ := List.getElem?_eq_some_iff.1 htp
   have hcnt0 : s.bases.count (Base.task q) = 0 := by have := h.taskCnt q tp htp; omega
+  have hold : s.nests[t]? = some ((s.nests[t]?).getD []) := by rw [List.getElem?_eq_getElem htl']; rfl
+  generalize hog : (s.nests[t]?).getD [] = old at hold
+  have hqold : q ∉ old := by
+    intro hq
+    obtain ⟨x, hx, hxs, _⟩ := h.nFwd t old q hold hq
+    rw [htp] at hx; cases hx; rw [hst] at hxs; cases hxs
   refine { len1 := ?len1, len2 := ?len2, cnt := ?cnt, tokM := ?tokM, notSt := ?notSt, wIdle := ?wIdle, mIdle := ?mIdle,
            taskSt := ?taskSt, taskCnt := ?taskCnt, cbFwd := ?cbFwd, cbBack := ?cbBack, addFwd := ?addFwd,
-           addBack := ?addBack, nFwd := ?nFwd, nBack := ?nBack, allOut := ?allOut, leaving := ?leaving }
+           addBack := ?addBack, nFwd := ?nFwd, nBack := ?nBack, len3 := ?len3, nIdle := ?nIdle, nNodup := ?nNodup,
+           allOut := ?allOut, leaving := ?leaving }
   all_goals try (keep h)
-  case len1 => simpa [tick] using h.len1
   case cnt =>
     simp only [tick]; rw [csum_set_contrib _ _ _ _ htp]; exact h.cnt
     simp [hst, contrib]
-  case wIdle =>
-    intro w m' hw' hm'
-    have hne := hw w m' hw' hm'
-    simp only [tick, List.getElem?_set_ne hne]
-    exact h.wIdle w m' hw' hm'
-  case mIdle =>
-    intro hm'
-    have hne := hm hm'
-    simp only [tick, List.getElem?_set_ne hne]
-    exact h.mIdle hm'
   case taskSt =>
     intro t' p' hb
     simp only [tick] at hb
@@ -446,7 +442,7 @@ theorem inv_nestEnter {s : St} {t q m : Nat} {tp : Tp} (h : Inv s) (hbt : s.base
     intro p' x hx
     simp only [tick] at hx ⊢
     rcases get_set_cases _ _ _ _ _ hx with ⟨rfl, hxe, _⟩ | ⟨_, hx'⟩
-    · subst hxe; have := h.taskCnt q tp htp; simp only []; omega
+    · subst hxe; exact h.taskCnt q tp htp
     · exact h.taskCnt p' x hx'
   case cbFwd =>
     intro t' p' hb
@@ -461,66 +457,80 @@ theorem inv_nestEnter {s : St} {t q m : Nat} {tp : Tp} (h : Inv s) (hbt : s.base
     · exact h.cbBack p' x hx' hxs
   case addFwd =>
     intro t' q' hq
-    simp only [tick] at hq ⊢
-    rcases get_set_cases _ _ _ _ _ hq with ⟨_, hx, _⟩ | ⟨_, hq'⟩
-    · cases hx
-    · obtain ⟨x, hx, hxs, hxb⟩ := h.addFwd t' q' hq'
-      have hne : q ≠ q' := by
-        intro e; subst e; rw [htp] at hx; cases hx; rw [hst] at hxs; rcases hxs with e | e | e <;> cases e
-      exact ⟨x, by rw [List.getElem?_set_ne hne]; exact hx, hxs, hxb⟩
+    obtain ⟨x, hx, hxs, hxb⟩ := h.addFwd t' q' hq
+    have hne : q ≠ q' := by
+      intro e; subst e; rw [htp] at hx; cases hx; rw [hst] at hxs; rcases hxs with e | e | e <;> cases e
+    exact ⟨x, by simp only [tick]; rw [List.getElem?_set_ne hne]; exact hx, hxs, hxb⟩
   case addBack =>
     intro q' x hx hxs
     simp only [tick] at hx ⊢
     rcases get_set_cases _ _ _ _ _ hx with ⟨_, hxe, _⟩ | ⟨_, hx'⟩
     · subst hxe; simp only [] at hxs; rcases hxs with e | e | e <;> cases e
-    · have hb := h.addBack q' x hx' hxs
-      have hne : t ≠ x.by_ := by intro e; rw [← e, hsu] at hb; cases hb
-      rw [List.getElem?_set_ne hne]; exact hb
+    · exact h.addBack q' x hx' hxs
   case nFwd =>
-    intro t' q' hq
-    simp only [tick] at hq ⊢
-    rcases get_set_cases _ _ _ _ _ hq with ⟨rfl, hx, _⟩ | ⟨_, hq'⟩
-    · cases hx; exact ⟨_, List.getElem?_set_self hpl, rfl, rfl⟩
-    · obtain ⟨x, hx, hxs, hxb⟩ := h.nFwd t' q' hq'
-      have hne : q ≠ q' := by intro e; subst e; rw [htp] at hx; cases hx; rw [hst] at hxs; cases hxs
-      exact ⟨x, by rw [List.getElem?_set_ne hne]; exact hx, hxs, hxb⟩
+    intro t' l q' hl hq
+    simp only [tick] at hl ⊢
+    have key : ∀ x : Tp, s.tps[q']? = some x → x.st = .inCbN → x.by_ = t' → q' ≠ q →
+        ∃ y : Tp, (s.tps.set q { tp with pend := 0, st := .inCbN, cbs := tp.cbs + 1, cbAt := s.clock, by_ := t })[q']? = some y ∧
+          y.st = .inCbN ∧ y.by_ = t' := fun x hx h1 h2 hne => ⟨x, by rw [List.getElem?_set_ne (fun e => hne e.symm)]; exact hx, h1, h2⟩
+    rcases get_set_cases _ _ _ _ _ hl with ⟨rfl, hle, _⟩ | ⟨_, hl'⟩
+    · subst hle
+      rcases List.mem_cons.1 hq with rfl | hq'
+      · exact ⟨_, List.getElem?_set_self hpl, rfl, rfl⟩
+      · obtain ⟨x, hx, h1, h2⟩ := h.nFwd t old q' hold hq'
+        exact key x hx h1 h2 (fun e => hqold (e ▸ hq'))
+    · obtain ⟨x, hx, h1, h2⟩ := h.nFwd t' l q' hl' hq
+      exact key x hx h1 h2 (fun e => by subst e; rw [htp] at hx; cases hx; rw [hst] at h1; cases h1)
   case nBack =>
     intro q' x hx hxs
     simp only [tick] at hx ⊢
     rcases get_set_cases _ _ _ _ _ hx with ⟨rfl, hxe, _⟩ | ⟨_, hx'⟩
-    · subst hxe; exact List.getElem?_set_self htl'
-    · have hb := h.nBack q' x hx' hxs
-      have hne : t ≠ x.by_ := by intro e; rw [← e, hsu] at hb; cases hb
-      rw [List.getElem?_set_ne hne]; exact hb
+    · subst hxe; exact ⟨q :: old, List.getElem?_set_self htl', List.mem_cons_self⟩
+    · obtain ⟨l, hl, hql⟩ := h.nBack q' x hx' hxs
+      by_cases e : t = x.by_
+      · rw [← e] at hl ⊢
+        rw [hold] at hl; cases hl
+        exact ⟨q :: old, List.getElem?_set_self htl', List.mem_cons_of_mem _ hql⟩
+      · exact ⟨l, by rw [List.getElem?_set_ne e]; exact hl, hql⟩
+  case len3 => simpa [tick] using h.len3
+  case nIdle =>
+    intro t' l hl hne
+    simp only [tick] at hl ⊢
+    rcases get_set_cases _ _ _ _ _ hl with ⟨rfl, _, _⟩ | ⟨_, hl'⟩
+    · exact ⟨m, hbt⟩
+    · exact h.nIdle t' l hl' hne
+  case nNodup =>
+    intro t' l hl
+    simp only [tick] at hl
+    rcases get_set_cases _ _ _ _ _ hl with ⟨rfl, hle, _⟩ | ⟨_, hl'⟩
+    · subst hle; exact List.nodup_cons.2 ⟨hqold, h.nNodup t old hold⟩
+    · exact h.nNodup t' l hl'
   case leaving => intro hm'; exact (hbusy (Or.inl hm')).elim
 
-/-- the decrement that ends a nested termination -/
-theorem inv_nestDec {s : St} {t q : Nat} {tp : Tp} (h : Inv s) (hsu : s.subs[t]? = some (.ncb q)) (htp : s.tps[q]? = some tp) :
-    Inv (tick { s with active := s.active - 1, subs := s.subs.set t .none,
+/-- the decrement that ends the innermost nested termination -/
+theorem inv_nestDec {s : St} {t q : Nat} {rest : List Nat} {tp : Tp} (h : Inv s)
+    (hn : s.nests[t]? = some (q :: rest)) (htp : s.tps[q]? = some tp) :
+    Inv (tick { s with active := s.active - 1, nests := s.nests.set t rest,
                        tps := s.tps.set q { tp with st := .done, decAt := s.clock } }) := by
   obtain ⟨hst, hby⟩ : tp.st = .inCbN ∧ tp.by_ = t := by
-    obtain ⟨x, hx, hxs, hxb⟩ := h.nFwd t q hsu
+    obtain ⟨x, hx, hxs, hxb⟩ := h.nFwd t _ q hn List.mem_cons_self
     rw [htp] at hx; cases hx; exact ⟨hxs, hxb⟩
-  obtain ⟨htl, hbusy, _, _⟩ := sub_busy h hsu (by simp)
+  obtain ⟨m, hbt⟩ := h.nIdle t _ hn (by simp)
+  obtain ⟨htl, hbusy, _, _⟩ := cb_busy h hbt
+  have htl' : t < s.nests.length := by rw [h.len3]; exact htl
   obtain ⟨hpl, _⟩ := List.getElem?_eq_some_iff.1 htp
+  have hnd := h.nNodup t _ hn
+  have hqr : q ∉ rest := (List.nodup_cons.1 hnd).1
   refine { len1 := ?len1, len2 := ?len2, cnt := ?cnt, tokM := ?tokM, notSt := ?notSt, wIdle := ?wIdle, mIdle := ?mIdle,
            taskSt := ?taskSt, taskCnt := ?taskCnt, cbFwd := ?cbFwd, cbBack := ?cbBack, addFwd := ?addFwd,
-           addBack := ?addBack, nFwd := ?nFwd, nBack := ?nBack, allOut := ?allOut, leaving := ?leaving }
+           addBack := ?addBack, nFwd := ?nFwd, nBack := ?nBack, len3 := ?len3, nIdle := ?nIdle, nNodup := ?nNodup,
+           allOut := ?allOut, leaving := ?leaving }
   all_goals try (keep h)
-  case len1 => simpa [tick] using h.len1
   case cnt =>
     have := h.cnt
     simp only [tick]; rw [csum_set' _ _ _ _ htp]
     simp [hst, contrib]
     rw [this]; cases s.token <;> simp <;> omega
-  case wIdle =>
-    intro w m' hw' hm'
-    obtain ⟨h1, h2⟩ := h.wIdle w m' hw' hm'
-    exact ⟨h1, set_keep h2⟩
-  case mIdle =>
-    intro hm'
-    obtain ⟨h1, h2⟩ := h.mIdle hm'
-    exact ⟨h1, set_keep h2⟩
   case taskSt =>
     intro t' p' hb
     obtain ⟨x, hx, hxs⟩ := h.taskSt t' p' hb
@@ -545,37 +555,54 @@ theorem inv_nestDec {s : St} {t q : Nat} {tp : Tp} (h : Inv s) (hsu : s.subs[t]?
     · exact h.cbBack p' x hx' hxs
   case addFwd =>
     intro t' q' hq
-    simp only [tick] at hq ⊢
-    rcases get_set_cases _ _ _ _ _ hq with ⟨_, hx, _⟩ | ⟨_, hq'⟩
-    · cases hx
-    · obtain ⟨x, hx, hxs, hxb⟩ := h.addFwd t' q' hq'
-      have hne : q ≠ q' := by
-        intro e; subst e; rw [htp] at hx; cases hx; rw [hst] at hxs; rcases hxs with e | e | e <;> cases e
-      exact ⟨x, by rw [List.getElem?_set_ne hne]; exact hx, hxs, hxb⟩
+    obtain ⟨x, hx, hxs, hxb⟩ := h.addFwd t' q' hq
+    have hne : q ≠ q' := by
+      intro e; subst e; rw [htp] at hx; cases hx; rw [hst] at hxs; rcases hxs with e | e | e <;> cases e
+    exact ⟨x, by simp only [tick]; rw [List.getElem?_set_ne hne]; exact hx, hxs, hxb⟩
   case addBack =>
     intro q' x hx hxs
     simp only [tick] at hx ⊢
     rcases get_set_cases _ _ _ _ _ hx with ⟨_, hxe, _⟩ | ⟨_, hx'⟩
     · subst hxe; simp only [] at hxs; rcases hxs with e | e | e <;> cases e
-    · have hb := h.addBack q' x hx' hxs
-      have hne : t ≠ x.by_ := by intro e; rw [← e, hsu] at hb; cases hb
-      rw [List.getElem?_set_ne hne]; exact hb
+    · exact h.addBack q' x hx' hxs
   case nFwd =>
-    intro t' q' hq
-    simp only [tick] at hq ⊢
-    rcases get_set_cases _ _ _ _ _ hq with ⟨_, hx, _⟩ | ⟨hne, hq'⟩
-    · cases hx
-    · obtain ⟨x, hx, hxs, hxb⟩ := h.nFwd t' q' hq'
-      have hne' : q ≠ q' := by intro e; subst e; rw [htp] at hx; cases hx; exact hne (hby.symm.trans hxb)
-      exact ⟨x, by rw [List.getElem?_set_ne hne']; exact hx, hxs, hxb⟩
+    intro t' l q' hl hq
+    simp only [tick] at hl ⊢
+    rcases get_set_cases _ _ _ _ _ hl with ⟨rfl, hle, _⟩ | ⟨hne, hl'⟩
+    · subst hle
+      obtain ⟨x, hx, h1, h2⟩ := h.nFwd t _ q' hn (List.mem_cons_of_mem _ hq)
+      have hqq : q ≠ q' := fun e => hqr (e ▸ hq)
+      exact ⟨x, by rw [List.getElem?_set_ne hqq]; exact hx, h1, h2⟩
+    · obtain ⟨x, hx, h1, h2⟩ := h.nFwd t' l q' hl' hq
+      have hqq : q ≠ q' := by intro e; subst e; rw [htp] at hx; cases hx; exact hne (hby.symm.trans h2)
+      exact ⟨x, by rw [List.getElem?_set_ne hqq]; exact hx, h1, h2⟩
   case nBack =>
     intro q' x hx hxs
     simp only [tick] at hx ⊢
     rcases get_set_cases _ _ _ _ _ hx with ⟨_, hxe, _⟩ | ⟨hqq, hx'⟩
     · subst hxe; cases hxs
-    · have hb := h.nBack q' x hx' hxs
-      have hne : t ≠ x.by_ := by intro e; rw [← e, hsu] at hb; cases hb; exact hqq rfl
-      rw [List.getElem?_set_ne hne]; exact hb
+    · obtain ⟨l, hl, hql⟩ := h.nBack q' x hx' hxs
+      by_cases e : t = x.by_
+      · rw [← e] at hl ⊢
+        rw [hn] at hl; cases hl
+        refine ⟨rest, List.getElem?_set_self htl', ?_⟩
+        rcases List.mem_cons.1 hql with e' | e'
+        · exact absurd e'.symm hqq
+        · exact e'
+      · exact ⟨l, by rw [List.getElem?_set_ne e]; exact hl, hql⟩
+  case len3 => simpa [tick] using h.len3
+  case nIdle =>
+    intro t' l hl hne
+    simp only [tick] at hl ⊢
+    rcases get_set_cases _ _ _ _ _ hl with ⟨rfl, _, _⟩ | ⟨_, hl'⟩
+    · exact ⟨m, hbt⟩
+    · exact h.nIdle t' l hl' hne
+  case nNodup =>
+    intro t' l hl
+    simp only [tick] at hl
+    rcases get_set_cases _ _ _ _ _ hl with ⟨rfl, hle, _⟩ | ⟨_, hl'⟩
+    · subst hle; exact (List.nodup_cons.1 hnd).2
+    · exact h.nNodup t' l hl'
   case allOut => intro hm' hw'; exact (hbusy (Or.inr ⟨hm', hw'⟩)).elim
   case leaving => intro hm'; exact (hbusy (Or.inl hm')).elim
 
